@@ -569,18 +569,32 @@ theorem RInv.kill {c : Cfg} {s0 s : St} (ok : CfgOK c s0) (wf : DiskWF s0.disk) 
       · exact r2
 
 theorem RInv.step {c : Cfg} {s0 s : St} (ok : CfgOK c s0) (wf : DiskWF s0.disk) (hv : c.volatile = true)
-    (x : XInv s0 s) (r : RInv c s0 s) (e : Ev) : RInv c s0 (step c s e) := by
+    (bk0 : BK s0) (x : XInv s0 s) (r : RInv c s0 s) (e : Ev) : RInv c s0 (step c s e) := by
   cases e with
   | nodeDone n => exact r.nodeDone n
   | nodeFailed n => exact r
   | nodeReset n => exact r
+  | restart =>
+    refine ⟨?_, ?_, ?_, r.fin⟩
+    · refine ⟨?_, ?_⟩
+      · show ∀ a hs, (a, hs) ∈ c.initArgs → ∀ n, some n ∈ hs → ∃ as, c.initPost.lookup n = some as ∧ a ∈ as
+        rw [ok.init.1, ok.init.2]; exact bk0.cons
+      · show ∀ a hs, (a, hs) ∈ c.initArgs → hs ≠ []
+        rw [ok.init.1]; exact bk0.ne
+    · refine ⟨?_, ?_⟩
+      · intro a h hh
+        obtain ⟨hs, hm, hin⟩ := hh
+        exact ⟨hs, by rw [← ok.init.1]; exact hm, hin⟩
+      · intro p hp
+        exact ⟨p, by rw [← ok.init.2]; exact hp, rfl⟩
+    · intro es he; cases he
   | removeEmpty =>
     exact r.frame (foldRemove_frame (fun a => (c.namesOf a).isEmpty) s.dom s)
       (foldRemove_sh (fun a => (c.namesOf a).isEmpty) s.dom s)
       (foldRemove_bk (fun a => (c.namesOf a).isEmpty) s.dom s r.bk)
   | cacheMap => exact r.cacheMap
   | early upto =>
-    show RInv c s0 (if s.final then s else Martian.Vdr.cleanTmp c s (min upto 2))
+    show RInv c s0 (if s.final then s else Martian.Vdr.cleanTmp c s (min upto 3))
     split
     · exact r
     · rename_i hf
@@ -588,12 +602,12 @@ theorem RInv.step {c : Cfg} {s0 s : St} (ok : CfgOK c s0) (wf : DiskWF s0.disk) 
   | kill => exact r.kill ok wf hv x
 
 theorem joint_run {c : Cfg} {s0 s : St} (ok : CfgOK c s0) (wf : DiskWF s0.disk) (hv : c.volatile = true)
-    (x : XInv s0 s) (r : RInv c s0 s) (evs : List Ev) :
+    (bk0 : BK s0) (x : XInv s0 s) (r : RInv c s0 s) (evs : List Ev) :
     XInv s0 (run c s evs) ∧ RInv c s0 (run c s evs) := by
   unfold run
   induction evs generalizing s with
   | nil => exact ⟨x, r⟩
-  | cons e rest ih => exact ih (x.step ok wf e) (r.step ok wf hv x e)
+  | cons e rest ih => exact ih (x.step ok wf e) (r.step ok wf hv bk0 x e)
 
 theorem RInv.init (c : Cfg) (s0 : St) (fr : Fresh s0) (k : BK s0) (hf : s0.final = false) : RInv c s0 s0 := by
   refine ⟨k, Sh.refl s0, ?_, ?_⟩
